@@ -176,13 +176,47 @@ class FsmModel:
         return name
 
     # -------------------------------------------------------------- role attr
-    def role_worlds(self, attr: str) -> Optional[Dict[str, Any]]:
+    def role_worlds(self, attr: str, _depth: int = 0) -> Optional[Dict[str, Any]]:
         """Value of provider attribute ``attr`` in the requestor / acceptor world,
         or None when the attribute is assigned nowhere."""
         vals: Dict[str, Any] = {}
         init = self.provider_cls.find_method('__init__')
         found = False
         SOCK = _Truthy('socket')
+        # the attribute as a read-only property: another attribute under a new name, or an expression over the provider's
+        # state *when it is read* -- in a release collision both sides hold a transport connection
+        pf = self.provider_cls.find_method(attr)
+        if pf is not None and pf.kind == 'property' and attr not in self.provider_cls.setters and _depth < 4:
+            body = [x for x in pf.node.body if not (isinstance(x, ast.Expr) and isinstance(x.value, ast.Constant))]
+
+            def as_expr(stmts):
+                """the expression a body of returns stands for (``if c: return a else: return b`` is ``a if c else b``)"""
+                if len(stmts) == 1 and isinstance(stmts[0], ast.Return) and stmts[0].value is not None:
+                    return stmts[0].value
+                if len(stmts) >= 1 and isinstance(stmts[0], ast.If):
+                    a_ = as_expr(stmts[0].body)
+                    b_ = as_expr(stmts[0].orelse or stmts[1:])
+                    if a_ is not None and b_ is not None:
+                        return ast.IfExp(test=stmts[0].test, body=a_, orelse=b_)
+                return None
+            e0 = as_expr(body)
+            if e0 is not None:
+                e = e0
+                ch = attr_chain(e) if isinstance(e, ast.Attribute) else None
+                if ch and len(ch) == 2 and ch[0] == pf.params[0]:
+                    return self.role_worlds(ch[1], _depth + 1)
+
+                class _S(ast.NodeTransformer):
+                    def visit_Attribute(self_, n):
+                        if attr_chain(n) == (pf.params[0], 'dul_socket'):
+                            return ast.Name(id='dul_socket', ctx=ast.Load())
+                        return self_.generic_visit(n)
+                import copy as _copy
+                try:
+                    v = _small_eval(_S().visit(_copy.deepcopy(e)), {'dul_socket': SOCK})
+                    return {'requestor': v, 'acceptor': v}
+                except _CannotEval:
+                    return None
         if init is not None:
             for world, sockval in (('requestor', None), ('acceptor', SOCK)):
                 env = {'dul_socket': sockval}
